@@ -8,7 +8,7 @@ from . import arena, build, tlc
 
 
 from .engines_common import Result  # noqa: E402
-from . import handlers, tok, printf  # noqa: E402
+from . import handlers, tok, printf, alloc, threads, p2  # noqa: E402
 
 
 # --------------------------------------------------------------------------------------
@@ -82,6 +82,7 @@ def run_arena(prop, tier, seed, workdir, families=None):
     res = Result("arena")
     fams = [f for f, d in ARENA_FAMILIES.items() if prop in d["props"] and (families is None or f in families)]
     states = transitions = 0
+    p2total = 0
     total_events = 0
     ncases = 0
     nontrivial = set()
@@ -97,8 +98,13 @@ def run_arena(prop, tier, seed, workdir, families=None):
         states += st["distinct"]
         transitions += st["states"]
         ncases += len(cases)
+        # P2: seeded calls beyond the TLC scope (sizes across the 0x20 memset switch, word-unrolled primitives), same judge
+        extra = p2.cases(fam, seed, tier)
+        p2count = len(extra)
+        cases = cases + extra
         n, bad, meta = arena.execute_and_judge(cases, workdir, flavours=d.get("flavours", ("slack", "noslack")))
         total_events += n
+        p2total += p2count
         for ci, c in enumerate(cases):
             # non-trivial: a usable destination and a source, i.e. the call gets past the argument checks
             if c["d"] != 0 and c["dmax"] > 0 and (c["s"] != 0 or c["fn"] in NO_SRC):
@@ -120,7 +126,7 @@ def run_arena(prop, tier, seed, workdir, families=None):
              "the property; each call is executed against the library built from /repo in the null-slack and no-slack builds, "
              "flush against the trailing and the leading guard page, and every recorded event is judged by TLC (TraceArena). "
              "non-trivial = distinct calls with a usable destination (non-NULL, 0 < dmax <= limit) and a non-NULL source",
-        samples=samples, scopes=scopes, exhaustive=True, model_cases=ncases,
+        samples=samples, scopes=scopes, exhaustive=True, model_cases=ncases, p2_cases_beyond_scope=p2total,
         checker_cmd="tlc GenArena.tla (INVARIANT PropsHold) ; tlc TraceArena.tla")
     res.assumptions = [
         "small-scope hypothesis: arena of N cells, sizes up to K (see coverage.scopes)",
@@ -139,7 +145,7 @@ def run_arena_and_printf(prop, tier, seed, workdir):
     return res
 
 
-ENGINES = {"C13": handlers.run, "C14": tok.run, "C09": printf.run_c09, "C11": printf.run_c11}
+ENGINES = {"C13": handlers.run, "C14": tok.run, "C09": printf.run_c09, "C11": printf.run_c11, "C12": threads.run, "C20": alloc.run}
 for _p in ("C02", "C06", "C07", "C10"):
     ENGINES[_p] = run_arena
 for _p in ("C01", "C03", "C04", "C05", "C08"):
@@ -162,6 +168,10 @@ def replay(prop, path, workdir):
         res = printf.replay(rp, workdir)
         res.violations = [v for v in res.violations if prop in v.get("props", [prop])]
         return res
+    elif rp["kind"] == "alloc":
+        return alloc.replay(rp, workdir)
+    elif rp["kind"] == "threads":
+        return threads.replay(rp, workdir)
     elif rp["kind"] == "tok":
         return tok.replay(rp, workdir)
     elif rp["kind"] == "handlers":
